@@ -215,6 +215,31 @@ pub fn main() {
 				tally!(sys);
 			}
 		}
+		// (11) two events on a steady stream (the high pushed up / the low pushed down, for one candle or for
+		// good, amplitudes 1..6, both orders, every gap 0..=8) for every overshooting MA kind at the lengths 3, 5 and 7 in every MA slot (one at a
+		// time) and for the default configuration
+		{
+			let map = ind::json_map(&c.to_json().unwrap());
+			let mut cfgs: Vec<Box<dyn ind::IndCfg>> = vec![c.boxed_clone()];
+			for (k, v) in &map {
+				if v.is_object() {
+					for kind in ["linreg", "hma", "dema", "tema"] {
+						for n in [3, 5, 7] {
+							for base_cfg in [c.boxed_clone(), small_variant(c.as_ref(), 3)] {
+								let mut x = base_cfg;
+								if x.set(k, format!("{kind}-{n}")).is_ok() && x.validate() {
+									cfgs.push(x);
+								}
+							}
+						}
+					}
+				}
+			}
+			let amps: &[f64] = if thorough { &[1.0, 2.0, 3.0, 4.0, 5.0, 6.0] } else { &[1.0, 2.0, 4.0, 5.0] };
+			let sys = ImpulsePairs::new(&format!("{name}/two-events/overshooting-kinds"), cfgs, ks[1], amps, oracle, 8, 12);
+			h.go(&sys, &Limits::depth(1).wall_secs(600), true);
+			tally!(sys.inner);
+		}
 		// (9) pairs of one length and one float parameter (thresholds scaled by a length, factors applied to
 		// a window): every combination of the mid-range lengths with the float values, steady / zigzag /
 		// volatile streams without deviation
